@@ -639,3 +639,200 @@ impl<A: Gen, B: Gen> Gen for (A, B) {
         (A::gen(rng), B::gen(rng))
     }
 }
+
+/// Canonical rendering of a value, computed from Rust values on the handler side (`Canon`) and from wire
+/// values on the oracle side (`canon_val`): equal strings iff equal D-Bus values (dict entries sorted).
+pub trait Canon {
+    fn canon(&self, out: &mut String);
+}
+pub fn canon<T: Canon>(v: &T) -> String {
+    let mut s = String::new();
+    v.canon(&mut s);
+    s
+}
+macro_rules! canon_num {
+    ($($t:ty => $c:literal),*) => {$(impl Canon for $t {
+        fn canon(&self, out: &mut String) { out.push_str(&format!(concat!($c, "{}"), self)); }
+    })*};
+}
+canon_num!(u8 => "y", i16 => "n", u16 => "q", i32 => "i", u32 => "u", i64 => "x", u64 => "t");
+impl Canon for bool {
+    fn canon(&self, out: &mut String) {
+        out.push_str(if *self { "b1" } else { "b0" });
+    }
+}
+impl Canon for f64 {
+    fn canon(&self, out: &mut String) {
+        out.push_str(&format!("d{:016x}", self.to_bits()));
+    }
+}
+impl Canon for String {
+    fn canon(&self, out: &mut String) {
+        out.push_str(&format!("s{:?}", self));
+    }
+}
+impl Canon for zbus::zvariant::OwnedObjectPath {
+    fn canon(&self, out: &mut String) {
+        out.push_str(&format!("o{:?}", self.as_str()));
+    }
+}
+impl<T: Canon> Canon for Vec<T> {
+    fn canon(&self, out: &mut String) {
+        out.push('[');
+        for (i, e) in self.iter().enumerate() {
+            if i > 0 {
+                out.push(',');
+            }
+            e.canon(out);
+        }
+        out.push(']');
+    }
+}
+fn canon_entries(mut entries: Vec<(String, String)>, out: &mut String) {
+    entries.sort();
+    out.push('{');
+    for (i, (k, v)) in entries.iter().enumerate() {
+        if i > 0 {
+            out.push(',');
+        }
+        out.push_str(k);
+        out.push(':');
+        out.push_str(v);
+    }
+    out.push('}');
+}
+impl<T: Canon> Canon for HashMap<String, T> {
+    fn canon(&self, out: &mut String) {
+        canon_entries(self.iter().map(|(k, v)| (canon(k), canon(v))).collect(), out);
+    }
+}
+impl<A: Canon, B: Canon> Canon for (A, B) {
+    fn canon(&self, out: &mut String) {
+        out.push('(');
+        self.0.canon(out);
+        out.push(',');
+        self.1.canon(out);
+        out.push(')');
+    }
+}
+impl Canon for zbus::zvariant::Value<'_> {
+    fn canon(&self, out: &mut String) {
+        use zbus::zvariant::Value as V;
+        match self {
+            V::U8(v) => v.canon(out),
+            V::Bool(v) => v.canon(out),
+            V::I16(v) => v.canon(out),
+            V::U16(v) => v.canon(out),
+            V::I32(v) => v.canon(out),
+            V::U32(v) => v.canon(out),
+            V::I64(v) => v.canon(out),
+            V::U64(v) => v.canon(out),
+            V::F64(v) => v.canon(out),
+            V::Str(v) => out.push_str(&format!("s{:?}", v.as_str())),
+            V::ObjectPath(v) => out.push_str(&format!("o{:?}", v.as_str())),
+            V::Signature(v) => out.push_str(&format!("g{:?}", v.to_string())),
+            V::Value(v) => {
+                out.push('<');
+                v.canon(out);
+                out.push('>');
+            }
+            V::Array(a) => {
+                out.push('[');
+                for (i, e) in a.iter().enumerate() {
+                    if i > 0 {
+                        out.push(',');
+                    }
+                    e.canon(out);
+                }
+                out.push(']');
+            }
+            V::Dict(d) => canon_entries(d.iter().map(|(k, v)| (canon(k), canon(v))).collect(), out),
+            V::Structure(s) => {
+                out.push('(');
+                for (i, e) in s.fields().iter().enumerate() {
+                    if i > 0 {
+                        out.push(',');
+                    }
+                    e.canon(out);
+                }
+                out.push(')');
+            }
+            _ => out.push('?'),
+        }
+    }
+}
+/// A variant argument: rendered as the variant it is on the wire.
+impl Canon for OwnedValue {
+    fn canon(&self, out: &mut String) {
+        out.push('<');
+        let v: &zbus::zvariant::Value<'_> = self;
+        v.canon(out);
+        out.push('>');
+    }
+}
+pub fn canon_val(v: &Val) -> String {
+    let mut out = String::new();
+    fn go(v: &Val, out: &mut String) {
+        match v {
+            Val::Byte(x) => x.canon(out),
+            Val::Bool(x) => x.canon(out),
+            Val::I16(x) => x.canon(out),
+            Val::U16(x) => x.canon(out),
+            Val::I32(x) => x.canon(out),
+            Val::U32(x) => x.canon(out),
+            Val::I64(x) => x.canon(out),
+            Val::U64(x) => x.canon(out),
+            Val::F64(x) => x.canon(out),
+            Val::Str(s) => out.push_str(&format!("s{s:?}")),
+            Val::Path(s) => out.push_str(&format!("o{s:?}")),
+            Val::Sig(s) => out.push_str(&format!("g{s:?}")),
+            Val::Fd(_) => out.push('?'),
+            Val::Array(e, items) if e.starts_with('{') => {
+                let entries = items
+                    .iter()
+                    .map(|i| match i {
+                        Val::DictEntry(k, v) => (canon_val(k), canon_val(v)),
+                        other => (canon_val(other), String::new()),
+                    })
+                    .collect();
+                canon_entries(entries, out);
+            }
+            Val::Array(_, items) => {
+                out.push('[');
+                for (i, e) in items.iter().enumerate() {
+                    if i > 0 {
+                        out.push(',');
+                    }
+                    go(e, out);
+                }
+                out.push(']');
+            }
+            Val::Struct(f) => {
+                out.push('(');
+                for (i, e) in f.iter().enumerate() {
+                    if i > 0 {
+                        out.push(',');
+                    }
+                    go(e, out);
+                }
+                out.push(')');
+            }
+            Val::DictEntry(k, v) => {
+                go(k, out);
+                out.push(':');
+                go(v, out);
+            }
+            Val::Variant(i) => {
+                out.push('<');
+                go(i, out);
+                out.push('>');
+            }
+        }
+    }
+    go(v, &mut out);
+    out
+}
+/// Arguments of one call: each rendered, joined by `;`.
+pub fn canon_args(args: &[Val]) -> String {
+    args.iter().map(canon_val).collect::<Vec<_>>().join(";")
+}
